@@ -335,11 +335,69 @@ func (s *c14TotpSys) Apply(op string) (string, string, string) {
 	return obs, "", ""
 }
 
+// c14ConfiguredLimits: the limits an operator writes into the configuration FILE
+// are the ones in force.  The file is produced by the repository's own generator,
+// edited, and loaded with the real loadVerifyConfigFile; then burst+12 guesses for
+// as many user names arrive at one instant through both entry points.
+func c14ConfiguredLimits(c *vfeng.Ctx) {
+	for _, cfg := range []struct {
+		burst int
+		rate  int
+	}{{20, 1}, {12, 2}, {150, 20}, {10, 1}} {
+		w, err := vfLoadedWorld(map[string]string{"password_attempt_global_burst_limit": fmt.Sprint(cfg.burst), "password_attempt_global_rate_limit": fmt.Sprint(cfg.rate)})
+		if err != nil {
+			c.Res.HarnessErr = "loading a generated configuration failed: " + err.Error()
+			return
+		}
+		cnt := &c14Counting{inner: c14Reject{}}
+		w.state.passwordChecker = cnt
+		pt := map[string]interface{}{"part": "configured-limits", "burst": cfg.burst, "rate": cfg.rate}
+		send := func(n int) (n429 int) {
+			for i := 0; i < n; i++ {
+				user := fmt.Sprintf("user%d", i)
+				var r *vfResp
+				if i%2 == 0 {
+					r = w.Do(vfReq{Method: "POST", Path: "/api/v0/login", Form: url.Values{"username": {user}, "password": {"guess"}}}.Build())
+				} else {
+					r = w.Do(vfReq{Method: "POST", Path: "/api/v0/login", HasBasic: true, Basic: [2]string{user, "guess"}}.Build())
+				}
+				if r.Code == http.StatusTooManyRequests {
+					n429++
+				}
+			}
+			return
+		}
+		n := cfg.burst + 12
+		n429 := send(n)
+		c.Eval(int64(n))
+		calls1 := cnt.Calls
+		vclock.Advance(3 * time.Second)
+		send(cfg.rate*3 + 5)
+		c.Eval(int64(cfg.rate*3 + 5))
+		calls2 := cnt.Calls - calls1
+		w.Close()
+		switch {
+		case calls1 != cfg.burst || n429 != n-cfg.burst:
+			c.Violate("C14|configured-burst-not-in-force|loadVerifyConfigFile", fmt.Sprintf("configuration file says burst %d rate %d/s: of %d simultaneous guesses %d reached the backend and %d were answered 429 (want %d and %d)", cfg.burst, cfg.rate, n, calls1, n429, cfg.burst, n-cfg.burst), pt)
+		case calls2 != cfg.rate*3:
+			c.Violate("C14|configured-rate-not-in-force|loadVerifyConfigFile", fmt.Sprintf("configuration file says burst %d rate %d/s: 3 s after the bucket was emptied %d guesses reached the backend (want %d)", cfg.burst, cfg.rate, calls2, cfg.rate*3), pt)
+		default:
+			c.Class(fmt.Sprintf("configured-limits|burst=%d|rate=%d|in-force", cfg.burst, cfg.rate), pt)
+		}
+	}
+}
+
+// c14Reject is a password backend that accepts nobody.
+type c14Reject struct{}
+
+func (c14Reject) PasswordAuthenticate(u string, p []byte) (bool, error) { return false, nil }
+func (c14Reject) UpdateStorage(s simplestorage.SimpleStore) error      { return nil }
+
 func init() {
 	vfRegister(&vfeng.Check{
 		ID:    "C14",
 		Level: "model_checking",
-		Rule:  "(a) BFS with canonical-state deduplication (state = token-bucket level) over {attempt via login form for 3 users right/wrong, attempt via basic-auth on EVERY route found to reach the password backend (probed with a counting backend), tick 0/400 ms/1 s/10 s} for burst in {10,12} x rate in {1,2}/s, depth 7 (thorough 9) with a five-attempt macro operation so that draining a burst of 10-12 fits the bound, against a reference token bucket: backend invocations <= burst + rate x elapsed at every prefix, an attempt with an empty bucket is answered 429 without lookup, both entry points share the bucket; (b) BFS over {wrong guess, right guess, tick 1 s/2 s/31 s/1 h/24 h} on the real TOTP verification: no evaluation within 2 s of the previous one, 5 consecutive evaluated failures within a minute start a lock-out (> 0, not shrinking from round to round)",
+		Rule:  "(c) configuration files written by the repository's generator with burst/rate set to (20,1) (12,2) (150,20) (10,1), loaded with the real loadVerifyConfigFile: exactly `burst` of burst+12 simultaneous guesses over both entry points reach the backend, the rest get 429, and 3 s later exactly 3 x rate more; (a) BFS with canonical-state deduplication (state = token-bucket level) over {attempt via login form for 3 users right/wrong, attempt via basic-auth on EVERY route found to reach the password backend (probed with a counting backend), tick 0/400 ms/1 s/10 s} for burst in {10,12} x rate in {1,2}/s, depth 7 (thorough 9) with a five-attempt macro operation so that draining a burst of 10-12 fits the bound, against a reference token bucket: backend invocations <= burst + rate x elapsed at every prefix, an attempt with an empty bucket is answered 429 without lookup, both entry points share the bucket; (b) BFS over {wrong guess, right guess, tick 1 s/2 s/31 s/1 h/24 h} on the real TOTP verification: no evaluation within 2 s of the previous one, 5 consecutive evaluated failures within a minute start a lock-out (> 0, not shrinking from round to round)",
 		Assumptions: []string{"the limiter's clock (golang.org/x/time/rate) is virtualised by the same AST rewrite", "the TOTP lock-out oracle is phrased on the statement: failures spread over more than a minute only assert the 2-second rule"},
 		Bounds: func(tier string) map[string]interface{} {
 			return map[string]interface{}{"password_depth": map[string]int{"quick": 7, "thorough": 9}[tier], "totp_depth": map[string]int{"quick": 7, "thorough": 9}[tier], "macro_ops": "burst5 = five immediate attempts, fail5 = five wrong guesses 2 s apart (each step judged individually)"}
@@ -370,6 +428,9 @@ func init() {
 					c.Count("totp_max_depth", int64(st.MaxDepth))
 				}
 			}
+			if c.Shard == c.NShards-1 {
+				c14ConfiguredLimits(c)
+			}
 			if c.NShards == 1 {
 				for i := 0; i < 5; i++ {
 					one(i, 0, 1)
@@ -382,9 +443,19 @@ func init() {
 		Replay: func(c *vfeng.Ctx, raw json.RawMessage) (bool, string) {
 			var h struct {
 				History []string `json:"history"`
+				Part    string   `json:"part"`
 			}
 			if err := json.Unmarshal(raw, &h); err != nil {
 				return false, err.Error()
+			}
+			if h.Part == "configured-limits" {
+				cc := &vfeng.Ctx{Check: c.Check, Tier: c.Tier, NShards: 1, Res: c.Res}
+				n := len(c.Res.Violations)
+				c14ConfiguredLimits(cc)
+				if len(c.Res.Violations) > n {
+					return true, c.Res.Violations[n].Key + " :: " + c.Res.Violations[n].What
+				}
+				return false, "configured limits enforced"
 			}
 			for _, op := range h.History {
 				if strings.HasPrefix(op, "guess") {
